@@ -229,6 +229,12 @@ impl CommitOracle {
 		}
 	}
 
+	#[cfg(feature = "verif")]
+	pub(crate) fn verif_state(&self) -> (u64, usize) {
+		let g = self.inner.lock();
+		(g.kept_since, g.recent_writes.len())
+	}
+
 	#[cfg(test)]
 	pub(crate) fn len(&self) -> usize {
 		self.inner.lock().recent_writes.len()
